@@ -101,6 +101,10 @@ def _cases(tier, seed):
         yield "127.0.0.%d:11211-key%d" % (i % 7, i), 0
 
 
+def prepare():
+    refs.CRef()        # build the sanitizer-instrumented C reference once, before the shards start
+
+
 def shard(tier, seed, idx, n):
     res = common.Result()
     # oracles must agree before anything is judged
